@@ -246,7 +246,11 @@ pub fn lex_plural_digit(src: &[char]) -> Option<FoundToken> {
     if l > i && src[i] == 's' {
         i += 1;
 
-        if l == i || !src[i].is_ascii_alphanumeric() {
+        // `os.example` is a hostname, whatever the case of its letters (the hostname lexer
+        // comes later and would never see it).
+        let starts_hostname = l > i + 1 && src[i] == '.' && src[i + 1].is_ascii_alphanumeric();
+
+        if (l == i || !src[i].is_ascii_alphanumeric()) && !starts_hostname {
             return Some(FoundToken {
                 token: TokenKind::Word(None),
                 next_index: i,
